@@ -112,6 +112,7 @@ type ListOpts struct {
 	WantOutput  bool
 	ViaInfos    bool // ConnlistFromResourceInfos(fsscanner...) instead of ConnlistFromDirPath
 	Mute        bool // the analyzer's own WithMuteErrsAndWarns option (off by default, as in `list`)
+	Twice       bool // the input is analysed twice on one analyzer; the second result counts
 }
 
 type ListRes struct {
@@ -209,6 +210,10 @@ func RunList(dir string, o ListOpts) (res *ListRes) {
 		conns, peers, err = ca.ConnlistFromResourceInfos(infos)
 	} else {
 		conns, peers, err = ca.ConnlistFromDirPath(dir)
+		if o.Twice && err == nil {
+			// the same input analysed once more on the same analyzer: what is normalised below is the SECOND result
+			conns, peers, err = ca.ConnlistFromDirPath(dir)
+		}
 	}
 	res.Err = err
 	for _, e := range ca.Errors() {
@@ -314,6 +319,13 @@ func RunList(dir string, o ListOpts) (res *ListRes) {
 	}
 	if o.Exposure && err == nil {
 		res.Exposed = exposedPeers(ca)
+		seenX := map[string]bool{}
+		for _, x := range res.Exposed {
+			if seenX[x.Peer] {
+				wf("ExposedPeers() holds more than one entry for %s", x.Peer)
+			}
+			seenX[x.Peer] = true
+		}
 	}
 	if o.WantOutput && err == nil {
 		res.Out, res.OutErr = ca.ConnectionsListToString(conns)
